@@ -320,7 +320,8 @@ EndB(c, st, g) ==
                outs |-> <<Red(g, gs.btime, gc.ck, <<>>)>>]
          ELSE [st |-> st, outs |-> <<Red(g, gs.btime, gs.rc.k, gs.rc.acc)>>]
 
-(* stream mode, reducing functions: accumulate while time stands still, emit when it advances *)
+(* stream mode, reducing functions: accumulate while time stands still, emit when it changes *)
+(* (p.Time().Equal(bc.time): a point OLDER than the run being collected closes it as well)    *)
 AggPointS(c, st, g, p) ==
     LET r == Realize(c, st, g, p) IN IF r.ok THEN Aggregate(r.st, g, p) ELSE r.st
 PointS(c, st, g, p) ==
@@ -392,8 +393,8 @@ SPoint(g, k, v, dt) ==
     /\ mode = "stream"
     /\ LET c == cur[g]
            first == c.n = 0
-           newrun == first \/ dt = 1
-           t == IF first THEN 1 ELSE c.t + dt
+           newrun == first \/ dt # 0              \* a run ends whenever the time CHANGES (older points too)
+           t == IF first THEN 2 ELSE c.t + dt
            run == IF newrun THEN <<>> ELSE c.pts
            p == MkPt(t, k, v, Len(run) + 1)
            r == PointS(cfg, st, g, p) IN
@@ -412,7 +413,7 @@ Next ==
     \/ \E g \in Groups : Begin(g)
     \/ \E k \in Kinds, v \in Values : BPoint(k, v)
     \/ End
-    \/ \E g \in Groups, k \in Kinds, v \in Values, dt \in {0, 1} : SPoint(g, k, v, dt)
+    \/ \E g \in Groups, k \in Kinds, v \in Values, dt \in {-1, 0, 1} : SPoint(g, k, v, dt)
 
 Spec == Init /\ [][Next]_vars
 
